@@ -545,9 +545,10 @@ func (vfs *MemFS) OpenFile(name string, flag int, perm fs.FileMode) (avfs.File, 
 		}
 
 		parent.mu.Lock()
-		defer parent.mu.Unlock()
 
 		if om&avfs.OpenWrite == 0 || !parent.checkPermission(avfs.OpenWrite|avfs.OpenLookup, vfs.User()) {
+			parent.mu.Unlock()
+
 			return (*MemFile)(nil), &fs.PathError{Op: op, Path: name, Err: vfs.err.PermDenied}
 		}
 
@@ -556,6 +557,8 @@ func (vfs *MemFS) OpenFile(name string, flag int, perm fs.FileMode) (avfs.File, 
 		child = parent.children[part]
 		if child == nil {
 			child = vfs.createFile(parent, part, perm)
+			parent.mu.Unlock()
+
 			f := &MemFile{
 				nd:       child,
 				vfs:      vfs,
@@ -566,6 +569,13 @@ func (vfs *MemFS) OpenFile(name string, flag int, perm fs.FileMode) (avfs.File, 
 			}
 
 			return f, nil
+		}
+
+		parent.mu.Unlock()
+
+		if _, ok := child.(*symlinkNode); ok {
+			// name has become a symbolic link since it was searched : resolve it.
+			return vfs.OpenFile(name, flag, perm)
 		}
 	}
 
